@@ -32,7 +32,7 @@ RULE = ("exhaustive union of two products. Part A (structure x designed batch li
         "Non-trivial = a sample that is not a key, or two keys sharing a bucket, or more than one call, or a non-default "
         "initial value")
 
-INITS = ["default", "zero", "scalar", "per"]
+INITS = ["default", "zero", "scalar", "per", "perfloat", "perbig"]
 
 BOUNDS = {
     "quick": {"key_pools": "as C11 quick", "moduli": MODS_Q, "big_moduli": BIGMODS_Q, "inits": INITS,
@@ -47,7 +47,9 @@ BOUNDS = {
 
 
 def init_value(kind, n):
-    return {"default": None, "zero": 0, "scalar": 3, "per": [10 * (i + 1) for i in range(n)]}[kind]
+    return {"default": None, "zero": 0, "scalar": 3, "per": [10 * (i + 1) for i in range(n)],
+            "perfloat": [0.5 + i for i in range(n)],                 # pseudo-counts: the totals are initial + occurrences (2.5, ...)
+            "perbig": [2 ** 62 + i for i in range(n)]}[kind]
 
 
 def designed_batches(dt, keys, mod):
@@ -172,7 +174,7 @@ def cases(tier, seed):
                     else:
                         b.append(non[int(rng.integers(0, len(non)))])
                 batches.append(b)
-            kind = INITS[int(rng.integers(0, 4))]
+            kind = INITS[int(rng.integers(0, len(INITS)))]
             yield {"part": "R", "dtype": dt, "keys": keys, "mod": mod, "init": init_value(kind, n), "batches": batches,
                    "form": "list" if rng.random() < 0.7 else "typed"}
 
@@ -220,7 +222,7 @@ def _violations(case):
         if init is None:
             c = Counter(karr, mod=mod)
         elif isinstance(init, list):
-            c = Counter(karr, np.array(init, dtype=np.int64), mod=mod)
+            c = Counter(karr, np.array(init, dtype=np.float64 if any(isinstance(v, float) for v in init) else np.int64), mod=mod)
         else:
             c = Counter(karr, init, mod=mod)
     except Exception as e:
